@@ -19,6 +19,9 @@ R08.6 the ctx layer's variable-length copy helper (memcpy_gte16_*_varlen, one st
 R08.7 zero length: under the entry assumption len = 0 (the length argument of the CBC, GCM and XTS bodies, value-set
       interpretation of lib/valset.py) no instruction that stays reachable addresses memory through the in or out
       argument - 'exactly len output bytes', and no input byte is read that the caller did not supply.
+R08.8 masked tails are read as they are written: in every body with (in, out), an input load whose address shape,
+      offset and size equal those of output stores that are all confined by an opmask is itself masked - an unmasked
+      load there reads up to a vector's width of bytes the function does not treat as data (lib/inplace.py forms).
 R08.3 rolling-hash window: in _rolling_hash2_run every address of the form buffer - w / buffer + i - w is computed
       only after the first loop has exited normally (i >= w), before that the window comes from state->history.
 """
@@ -34,6 +37,7 @@ import absint
 import c12
 import c19
 import valset
+import inplace
 from report import Finding
 
 LEVEL = "other"
@@ -127,6 +131,23 @@ def worker(lib, objname, extra):
                 add("R08.7", name, "len=0", "with len = 0 `%s` stays reachable and %s memory through the %s argument (%d such access(es)): a zero-length call must touch neither buffer" % (i.text.strip(), "writes" if i.writes_mem_operand() else "reads", bufregs[hit[0]], len(badz)), i.addr, key[1])
             else:
                 out["zero_len_ok"] = out.get("zero_len_ok", 0) + 1
+        # ---- R08.8 mask symmetry of tails
+        if len(bufregs) == 2:
+            inr = [k_ for k_, v_ in bufregs.items() if v_ == "in"][0]
+            outr = [k_ for k_, v_ in bufregs.items() if v_ == "out"][0]
+            try:
+                ipr = inplace.analyse(f, inr, outr, r)
+                out["mask_bodies"] = out.get("mask_bodies", 0) + 1
+                nm = sum(1 for (a_, s_, i_) in ipr.stores if inplace._mask_of(i_))
+                out["masked_stores"] = out.get("masked_stores", 0) + nm
+                asym = inplace.mask_asymmetry(ipr)
+                if asym:
+                    l_, s_ = asym[0]
+                    add("R08.8", name, "unmasked-tail-load", "`%s` reads a full vector from the input where the matching output store `%s` (%s) is confined by an opmask: up to %d bytes beyond the data are read (%d such load(s))" % (l_.text.strip(), s_.text.strip(), o.line_of(key[1], s_.addr), (l_.memsize() or 16) - 1, len(asym)), l_.addr, key[1])
+                else:
+                    out["mask_ok"] = out.get("mask_ok", 0) + 1
+            except RuntimeError:
+                pass
         nst = nld = 0
         tag_root = len_root = None
         for k, sg in enumerate(sig):
@@ -274,6 +295,8 @@ def run(chk):
         tot["indexed_table"] += r.get("indexed_table", 0)
         tot["zero_len"] += r.get("zero_len", 0)
         tot["zero_len_ok"] += r.get("zero_len_ok", 0)
+        for k_ in ("mask_bodies", "masked_stores", "mask_ok"):
+            tot[k_] += r.get(k_, 0)
         for fd in r["findings"]:
             chk.finding(Finding(fd["rule"], fd["obj"], fd["function"], fd["construct"], fd["message"], loc=fd["loc"]))
         for s in r["samples"]:
@@ -285,6 +308,8 @@ def run(chk):
         chk.distinct.add(("fn", c))
     chk.obligations["R08.4"] = [tot["tagstores"], tot["tagstores"] - len([f for f in chk.findings if f.rule == "R08.4"])]
     chk.obligations["R08.7"] = [tot["zero_len"], tot["zero_len_ok"]]
+    chk.obligations["R08.8"] = [tot["mask_bodies"], tot["mask_ok"]]
+    chk.floor("opmask-confined output stores seen", tot["masked_stores"], 100)
     chk.floor("bodies with (in, out, len) judged for the zero-length call", tot["zero_len"], 80)
     chk.floor("tag stores judged", tot["tagstores"], 60)
     chk.floor("store instructions judged", tot["stores"], 10000)
